@@ -16,6 +16,7 @@
   processor returns, and a worker retires only after its idle wait `max(idle_timeout, consistency_time - now)` has timed out.
 -/
 import Kopf.Lemmas.C07_Barrier
+import Kopf.Lemmas.C07_Reached
 namespace Kopf.C07
 
 /-- **The barrier.** If change handlers run in iteration `i` (at time `t`), then the version of the
@@ -688,6 +689,118 @@ theorem noop_stall_regression_witness :
    { ver := some ⟨107, false⟩, now := 400, dur := 0, pressure := false, wake := none, lag := 0, gone := false,
      required := true, patchMid := false, patched := some ⟨107, false⟩, tp := 402, tret := 403 },
    ⟨105, false⟩, rfl, rfl, rfl, rfl, rfl, by decide, by decide, by decide, by decide, by decide, by decide⟩
+
+/-! ### Which dequeued version counts as "my patch has come back" (seeded change C07g)
+
+The worker's one line `expected_version == get_version(raw_event)` with the test as a parameter (`Model/C07_Reached`):
+kopf's equality is the worker of all theorems above; a test that also accepts LATER versions keeps the barrier exactly
+when it is sound (whatever it accepts is not older than the expected version); Python's `>` on the two strings is not. -/
+
+/-- The parametric worker with kopf's test IS the worker above: same runs, same decisions, same `wf`. -/
+theorem version_test_is_equality (T idle : Int) (c : Cfg) (l : List Step) (it : Iter) :
+    execBy mEq T c l = exec T c l ∧ outcomeAtBy mEq T c it = outcomeAt T c it ∧ wfBy mEq T idle c l = wf T idle c l :=
+  ⟨execBy_mEq T l c, outcomeAtBy_mEq T c it, wfBy_mEq T idle l c⟩
+
+/-- **The barrier for every sound version test** (equality — `sound_mEq` —, "the expected or a numerically later
+    version" — `sound_mNum` —, anything else that accepts no older version): with the per-object order of the watch
+    stream, if change handlers run in iteration `i` on the view `v`, that view is not older than the worker's last own
+    patch `p`, or the consistency timeout has elapsed since the server applied it — whatever arrived in between.
+    (Same guard as `barrier_view_partial`: the patch was issued by the object's worker.) -/
+theorem barrier_view_sound_test_partial (m : Ver → Ver → Bool) (hm : Sound m)
+    (T idle : Int) (pre mid post : List Step) (k i : Iter) (p v : Ver) (t : Int)
+    (hwf : wfBy m T idle Cfg.init (pre ++ .event k :: (mid ++ .event i :: post)) = true)
+    (hk : k.patched = some p)
+    (hmid : ∀ st ∈ mid, st.patched = none)
+    (hv : i.ver = some v)
+    (hordk : ∀ u, k.ver = some u → u.n ≤ v.n)
+    (hord : ∀ st ∈ mid, ∀ u, st.ver = some u → u.n ≤ v.n)
+    (hran : (outcomeAtBy m T (execBy m T Cfg.init (pre ++ .event k :: mid)) i).handlers = some t) :
+    p.n ≤ v.n ∨ k.tp + T ≤ t := by
+  obtain ⟨_, hokk, hrest⟩ := wfBy_split hwf
+  obtain ⟨hwfmid, hoki, _⟩ := wfBy_split hrest
+  have h0 : CoverBy T (nextBy m T (execBy m T Cfg.init pre) (.event k)) p k.tp (k.ver = some p) :=
+    coverBy_after_patch hokk hk
+  have h1 := coverBy_exec hm mid _ _ h0 hwfmid hmid
+  have hcfg : execBy m T Cfg.init (pre ++ .event k :: mid)
+      = execBy m T (nextBy m T (execBy m T Cfg.init pre) (.event k)) mid := by
+    rw [execBy_append, execBy_cons]
+  rw [hcfg] at hran
+  have hclk := (okStep_event hoki).1
+  rcases coverBy_handlers hm h1 hclk hran with (hf | ⟨st, hst, u, hu, hpu⟩) | ⟨u, hu, hpu⟩ | ht
+  · exact Or.inl (hordk p hf)
+  · exact Or.inl (Nat.le_trans hpu (hord st hst u hu))
+  · left
+    have : some u = some v := by rw [← hu, ← hv]; rfl
+    cases this
+    exact hpu
+  · exact Or.inr ht
+
+example : Sound mEq := sound_mEq
+example : Sound mNum := sound_mNum
+
+/-- The string order is not sound: "99" > "100" as strings of digits, and 99 is the older version. -/
+theorem string_order_unsound_witness : mStr ⟨99, false⟩ ⟨100, false⟩ = true ∧ ¬ Sound mStr := by
+  refine ⟨by decide, ?_⟩
+  intro h
+  have := h ⟨99, false⟩ ⟨100, false⟩ (by decide)
+  exact absurd this (by decide)
+
+/-- **The seeded change C07g breaks the barrier** (the worker takes a version that is greater AS A STRING for its own
+    patch come back). The object is seen at 98 (t = 64), the handlers run, the outcome is PATCHed at t = 83: version 100;
+    one tick later the event of a foreign write made meanwhile is dequeued: 99, one digit shorter. The changed worker
+    drops its expectation and the change handlers run on 99 at t = 84 — the view is older than the patch, 100 was never
+    dequeued, 1 of T = 320 ticks has passed; the stream is in order (98 ≤ 99). kopf's worker holds the same iteration back (it sleeps
+    in the barrier until the echo of 100 arrives 40 ticks later). -/
+theorem string_order_breaks_barrier_witness :
+    ∃ (T idle : Int) (k i : Iter) (p v : Ver) (t : Int),
+      wfBy mStr T idle Cfg.init ([] ++ .event k :: ([] ++ .event i :: [])) = true ∧
+      k.patched = some p ∧ i.ver = some v ∧ (∀ u, k.ver = some u → u.n ≤ v.n) ∧
+      (outcomeAtBy mStr T (execBy mStr T Cfg.init ([] ++ .event k :: [])) i).handlers = some t ∧
+      ¬ (p.n ≤ v.n ∨ k.tp + T ≤ t) ∧
+      (outcomeAt T (exec T Cfg.init [.event k]) i).held = true :=
+  ⟨320, 320,
+   { ver := some ⟨98, false⟩, now := 64, dur := 0, pressure := false, wake := none, lag := 0, gone := false,
+     required := true, patchMid := true, patched := some ⟨100, false⟩, tp := 83, tret := 83 },
+   { ver := some ⟨99, false⟩, now := 84, dur := 0, pressure := false, wake := some 40, lag := 0, gone := false,
+     required := true, patchMid := true, patched := none, tp := 84, tret := 84 },
+   ⟨100, false⟩, ⟨99, false⟩, 84, by decide, rfl, rfl, by decide, by decide, by decide, by decide⟩
+
+/-- Why ordinary use (and every history of ONE decimal width) cannot tell the two orders apart: between strings of
+    digits of the same length the string order IS the numeric order. -/
+theorem string_order_is_numeric_same_width : ∀ (as bs : List Nat), as.length = bs.length →
+    (∀ d ∈ as, d < 10) → (∀ d ∈ bs, d < 10) → (lexLt as bs = true ↔ valOf as < valOf bs)
+  | [], [], _, _, _ => by simp [lexLt, valOf]
+  | [], _ :: _, h, _, _ => by simp at h
+  | _ :: _, [], h, _, _ => by simp at h
+  | a :: as, b :: bs, h, ha, hb => by
+    have hl : as.length = bs.length := by simpa using h
+    have ih := string_order_is_numeric_same_width as bs hl (fun d hd => ha d (List.mem_cons_of_mem _ hd))
+      (fun d hd => hb d (List.mem_cons_of_mem _ hd))
+    have hx := valOf_lt as (fun d hd => ha d (List.mem_cons_of_mem _ hd))
+    have hy := valOf_lt bs (fun d hd => hb d (List.mem_cons_of_mem _ hd))
+    simp only [lexLt, valOf, Bool.or_eq_true, Bool.and_eq_true, decide_eq_true_eq, ih]
+    rw [hl] at hx ⊢
+    generalize 10 ^ bs.length = P at *
+    constructor
+    · rintro (hlt | ⟨heq, hvv⟩)
+      · have h1 : (a + 1) * P ≤ b * P := Nat.mul_le_mul_right _ hlt
+        rw [Nat.succ_mul] at h1
+        omega
+      · subst heq; omega
+    · intro hlt
+      by_cases hab : a < b
+      · exact Or.inl hab
+      · by_cases heq : a = b
+        · subst heq; exact Or.inr ⟨rfl, by omega⟩
+        · have hba : b < a := by omega
+          have h1 : (b + 1) * P ≤ a * P := Nat.mul_le_mul_right _ hba
+          rw [Nat.succ_mul] at h1
+          omega
+
+-- the two renderings involved in the witness, and a same-width pair on which the orders agree
+example : digits 99 = [9, 9] ∧ digits 100 = [1, 0, 0] ∧ valOf (digits 100) = 100 := by decide
+example : lexLt (digits 100) (digits 99) = true := by decide
+example : mStr ⟨1099, false⟩ ⟨1100, false⟩ = false ∧ mStr ⟨1101, false⟩ ⟨1100, false⟩ = true := by decide
 
 /-! ### Non-vacuity: concrete iterations (T = 5 s = 320 ticks, idle 320) -/
 
